@@ -13,7 +13,8 @@ RULE = ('S3: exhaustive layout construction (channels -1..257 x mapping families
         'decoder/encoder init and create, validate_layout, validate_encoder_layout and get_left/right/mono_channel; '
         'multistream packet validation on concatenations of 1..24 self-delimited packets of equal or unequal duration, mutated; '
         'opus_multistream_decode_native with a scripted per-stream decoder and a logging copy callback (call trace); '
-        'mapping_matrix in_short/out_short on all ten built-in matrices in the exact float domain and every impulse round trip. '
+        'mapping_matrix in_short/out_short on all ten built-in matrices in the exact float domain, out_short with accumulators '
+        'placed on the int16 saturation boundary (sum = 32766..32769, -32770..-32767), and every impulse round trip. '
         'S4: RFC 7845/8486 layouts for every family x channels 1..255; real surround / multistream / projection encoders '
         '(all rates, 2.5..120 ms, float and int16, CBR/VBR, loss) -> packet structure -> real multistream decoder against '
         'stand-alone decoders bit for bit; unit impulses through mixing and demixing matrices of all orders. '
@@ -256,14 +257,18 @@ def search(ctx):
             'samples': samples + sorted(str(x) for x in distinct)[:3], 'witnesses': wit}
 
 
-LEVEL_TEXT = ('proof about the Lean transcription of the layout code: validate_layout is exactly the declarative validity predicate; for '
-              'a validated layout and arbitrary per-stream PCM every output channel is written exactly once, with the left/right/mono '
-              'samples of the stream its mapping byte designates, or zeros for 255; for every family in {0,1,2,255} and every channel '
-              'count 1..255 the constructed layout passes both validators or the count has no table entry, family 1 equals an '
-              'independent literal of RFC 7845 5.1.1.2, the ambisonics counts are exactly (n+1)^2+2j with n<=14; the creation '
-              'argument checks reject precisely the stated argument sets; for the five built-in ambisonics orders the integer '
-              'product of the regenerated demixing and mixing tables, scaled by the exact real 10^(g/5120), is within 3e-4 of '
-              '2^30 times the identity (both with and without the non-diegetic pair)')
+LEVEL_TEXT = ('proof about the Lean transcription of the layout code: validate_layout / validate_encoder_layout are exactly the '
+              'declarative validity predicates; decoder/encoder creation accepts exactly the in-range arguments with a valid layout '
+              '(create = init, every refusal BAD_ARG); for every created decoder and arbitrary per-stream decoder behaviour every '
+              'output channel is written exactly once, with the left/right/mono samples of the stream its mapping byte designates, '
+              'or zeros iff 255; for every family in {0,1,2,255} and every channel count 1..255 init and create build exactly the '
+              'RFC 7845/8486 layout, accepted by both validators and by the generic encoder and decoder, or refuse when the RFC '
+              'defines none; family 1 equals the published literal and meets the RFC 7845 5.1.1.2 loudspeaker-order requirements; '
+              'validate_ambisonics accepts exactly (n+1)^2+2j, n<=14; projection (family 3) layouts for orders 1..5 and refusal '
+              'elsewhere; opus_multistream_packet_validate accepts exactly n-1 self-delimited packets + one standard packet of '
+              'equal duration (on top of the C06 parser theorems) and reads only the packet; for the five built-in ambisonics '
+              'orders the integer product of the regenerated demixing and mixing tables, scaled by the exact real 10^(g/5120), is '
+              'within 3e-4 of 2^30 times the identity (with and without the non-diegetic pair); the int16 matrix output saturates')
 LEVEL_NOTE = ('trusted: Lean kernel; extractors for vorbis_mappings and the ten int16 matrices (re-run on every check, cross-checked '
               'by the correspondence suites); the correspondence harness. Equality with stand-alone decoders and the encoder packet '
               'structure rest on the S4 search (implementation only).')
